@@ -44,9 +44,9 @@ def queries(tier):
             qs.append(Q(f'td_c{nc}_b{nb}_s{single}_trunc{m:03d}', 'serde_td', 'c11_td.c', defs={'NC': nc, 'NB': nb, 'SINGLE': single, 'M': m}, unwind=12,
                         unwindset={'^harness$': 130, '^(verif_mem.*|verif_new.*|put64|put32)$': 260}, timeout=(200 if tier == 'quick' else 900), native_vectors=50, c_defs={'VERIF_NEW_CAPN': 250}, mem_gb=16))
     # HLL_4 images (lg_k 4, HLL mode, one aux exception): compact (52 bytes) and updatable (64 bytes)
-    for (kind, size) in ((0, 52), (1, 64)):
+    for (kind, size) in ():   # ((0, 52), (1, 64)): attempted, symex of AuxHashMap::deserialize with a symbolic exception count had no verdict in 300 s; not claimed
         for m in range(0, size + 1):
-            if tier == 'quick': continue    # HLL images: thorough only (each query 300+ s)
+            if tier == 'quick': continue
             qs.append(Q(f'hll4_kind{kind}_trunc{m:03d}', 'serde_hll', 'c11_hll.c', defs={'KIND': kind, 'SIZE': size, 'M': m}, tu_defs={'__OPT': '-O1 -fno-inline-functions -fno-inline -fno-pic'}, unwind=20,
                         unwindset={'^harness$': 140, '^(verif_mem.*|verif_new.*|fnv.*|emit.*)$': 140, '^_ZN.*AuxHashMap': 7}, timeout=(300 if tier == 'quick' else 1200), native_vectors=50,
                         c_defs={'VERIF_NEW_CAPN': 70, 'VERIF_VEC_CAP': 8, 'VERIF_CUT_HLL4_SHIFT': None, 'VERIF_SKIP_HLL_KXQ': None, 'VERIF_CUT_HLL_AUX_GROW': None}, slice_formula=True, mem_gb=16))
